@@ -43,7 +43,7 @@ class PyCodeMapper(LokiStringifyMapper):
         return 'True' if bool(expr.value) else 'False'
 
     def map_float_literal(self, expr, enclosing_prec, *args, **kwargs):
-        return str(expr.value)
+        return self._parenthesise_negative_literal(str(expr.value), enclosing_prec)
 
     map_int_literal = map_float_literal
 
